@@ -38,6 +38,9 @@ pub enum COp {
     /// connect a block with these transactions on the current tip
     Conn(Vec<u32>),
     Disc,
+    /// one client, one connection: asks for its subscription, reads the answer, then sends an appointment (the second
+    /// request starts after the first has been answered: every sequential explanation keeps them in that order)
+    SubThenAdd { user: u32, loc: u32, blob: BlobSpec, tsd: u32 },
 }
 
 impl COp {
@@ -47,6 +50,7 @@ impl COp {
             COp::Add { user, loc, blob, .. } => format!("add(u{user},l{loc},{})", blob.token()),
             COp::Get { user, loc } => format!("get(u{user},l{loc})"),
             COp::Sub { user } => format!("sub(u{user})"),
+            COp::SubThenAdd { user, loc, blob, .. } => format!("sub(u{user});add(u{user},l{loc},{})", blob.token()),
             COp::Conn(t) => format!("conn({:?})", t),
             COp::Disc => "disc".into(),
         }
@@ -56,7 +60,7 @@ impl COp {
             COp::Reg(u) => HOp::Reg { user: *u },
             COp::Add { user, loc, blob, tsd } => HOp::Add { user: *user, loc: *loc, blob: blob.clone(), tsd: *tsd, sig: SigKind::Valid },
             COp::Get { user, loc } => HOp::Get { user: *user, loc: *loc, sig: SigKind::Valid },
-            COp::Sub { user } => HOp::Sub { user: *user, sig: SigKind::Valid },
+            COp::Sub { user } | COp::SubThenAdd { user, .. } => HOp::Sub { user: *user, sig: SigKind::Valid },
             COp::Conn(t) => HOp::Conn { txs: t.clone(), send: BTreeMap::new(), get: BTreeMap::new() },
             COp::Disc => HOp::Disc,
         }
@@ -83,6 +87,7 @@ enum Job {
     Add(common_msgs::AddAppointmentRequest),
     Get(common_msgs::GetAppointmentRequest),
     Sub(common_msgs::GetSubscriptionInfoRequest),
+    SubThenAdd(common_msgs::GetSubscriptionInfoRequest, common_msgs::AddAppointmentRequest),
     Conn(Block, u32),
     Disc(Block, u32),
 }
@@ -148,6 +153,13 @@ fn prepare(sys: &mut TowerSys, op: &COp, next_height: &mut u32, prev: &mut bitco
             let sig = teos_common::cryptography::sign(b"get subscription info", &user_key(*user).sk);
             Job::Sub(common_msgs::GetSubscriptionInfoRequest { signature: sig })
         }
+        COp::SubThenAdd { user, loc, blob, tsd } => {
+            let (Job::Sub(a), Job::Add(b)) = (
+                prepare(sys, &COp::Sub { user: *user }, next_height, prev),
+                prepare(sys, &COp::Add { user: *user, loc: *loc, blob: blob.clone(), tsd: *tsd }, next_height, prev),
+            ) else { unreachable!() };
+            Job::SubThenAdd(a, b)
+        }
         COp::Conn(txs) => {
             let txdata: Vec<Transaction> = txs.iter().map(|n| sys.tx(*n)).collect();
             let num = sys.next_block;
@@ -168,6 +180,14 @@ fn prepare(sys: &mut TowerSys, op: &COp, next_height: &mut u32, prev: &mut bitco
 }
 
 fn run_job(job: Job, api: Arc<InternalAPI>, gk: Arc<Gatekeeper>, w: Arc<Watcher>, r: Arc<Responder>) -> String {
+    let job = match job {
+        Job::SubThenAdd(a, b) => {
+            let first = run_job(Job::Sub(a), api.clone(), gk.clone(), w.clone(), r.clone());
+            let second = run_job(Job::Add(b), api, gk, w, r);
+            return format!("{first} then {second}");
+        }
+        j => j,
+    };
     let res = catch_unwind(AssertUnwindSafe(|| {
         let rt = tokio::runtime::Builder::new_current_thread().enable_all().build().unwrap();
         match job {
@@ -193,6 +213,7 @@ fn run_job(job: Job, api: Arc<InternalAPI>, gk: Arc<Gatekeeper>, w: Arc<Watcher>
                 Ok(x) => format!("ok {}", x.into_inner().available_slots),
                 Err(s) => format!("err {:?}", s.code()),
             },
+            Job::SubThenAdd(..) => unreachable!(),
             Job::Conn(block, h) => {
                 let inner = (w.clone(), r.clone());
                 let listener = (gk.clone(), &inner);
@@ -305,7 +326,10 @@ fn run_after(sc: &Scenario, sys: &mut TowerSys, replies: &[String]) {
 
 /// outcomes of every sequential order of the concurrent operations
 fn sequential_outcomes(sc: &Scenario, boot: &BootChain) -> BTreeMap<String, Vec<usize>> {
-    let n = sc.conc.len();
+    // (the two requests of a `SubThenAdd` are two steps of a sequential explanation, in that order)
+    let atoms: Vec<(usize, usize)> = sc.conc.iter().enumerate().flat_map(|(i, o)| if matches!(o, COp::SubThenAdd { .. }) { vec![(i, 0), (i, 1)] } else { vec![(i, 0)] }).collect();
+    let nops = sc.conc.len();
+    let n = atoms.len();
     let mut perms: Vec<Vec<usize>> = vec![];
     fn rec(cur: &mut Vec<usize>, n: usize, out: &mut Vec<Vec<usize>>) {
         if cur.len() == n {
@@ -327,16 +351,30 @@ fn sequential_outcomes(sc: &Scenario, boot: &BootChain) -> BTreeMap<String, Vec<
         let mut h = sys.height();
         let mut prev = sys.chain.last().map(|b| b.1.block_hash()).unwrap_or_else(genesis_hash);
         // chain operations keep their relative order in every permutation (the chain monitor is one thread)
-        let mut jobs: Vec<Option<Job>> = sc.conc.iter().map(|op| Some(prepare(&mut sys, op, &mut h, &mut prev))).collect();
-        let chain_idx: Vec<usize> = sc.conc.iter().enumerate().filter(|(_, o)| matches!(o, COp::Conn(_) | COp::Disc)).map(|(i, _)| i).collect();
-        let order_ok = chain_idx.windows(2).all(|w| p.iter().position(|x| *x == w[0]) < p.iter().position(|x| *x == w[1]));
+        let prepared: Vec<Job> = sc.conc.iter().map(|op| prepare(&mut sys, op, &mut h, &mut prev)).collect();
+        let mut jobs: Vec<Option<Job>> = vec![];
+        for j in prepared {
+            match j {
+                Job::SubThenAdd(a, b) => {
+                    jobs.push(Some(Job::Sub(a)));
+                    jobs.push(Some(Job::Add(b)));
+                }
+                j => jobs.push(Some(j)),
+            }
+        }
+        let pos = |a: usize| p.iter().position(|x| *x == a);
+        let chain_idx: Vec<usize> = atoms.iter().enumerate().filter(|(_, (i, _))| matches!(sc.conc[*i], COp::Conn(_) | COp::Disc)).map(|(a, _)| a).collect();
+        let pairs: Vec<(usize, usize)> = (0..n).filter(|a| atoms[*a].1 == 1).map(|a| (a - 1, a)).collect();
+        let order_ok = chain_idx.windows(2).all(|w| pos(w[0]) < pos(w[1])) && pairs.iter().all(|(a, b)| pos(*a) < pos(*b));
         if !order_ok {
             continue;
         }
-        let mut replies = vec![String::new(); n];
-        for i in p.iter() {
-            let job = jobs[*i].take().unwrap();
-            replies[*i] = run_job(job, sys.api.clone(), sys.gatekeeper.clone(), sys.watcher.clone(), sys.responder.clone());
+        let mut replies = vec![String::new(); nops];
+        for a in p.iter() {
+            let job = jobs[*a].take().unwrap();
+            let r = run_job(job, sys.api.clone(), sys.gatekeeper.clone(), sys.watcher.clone(), sys.responder.clone());
+            let i = atoms[*a].0;
+            replies[i] = if atoms[*a].1 == 1 { format!("{} then {r}", replies[i]) } else { r };
         }
         run_after(sc, &mut sys, &replies);
         outs.insert(outcome_of(&mut sys, &replies), p);
@@ -414,6 +452,12 @@ pub fn scenarios(thorough: bool) -> Vec<Scenario> {
                    },
                    send: node_ok.0.clone(), get: node_ok.1.clone(),
                    conc: vec![COp::Reg(1), COp::Conn(vec![])], after: vec![] },
+        // the block at which a subscription runs out is being connected (the gatekeeper has it, the watcher is still at
+        // work) while the user asks for the subscription and then sends an appointment: once told "expired", the user
+        // is not served any more
+        Scenario { name: "expiring-subscription-vs-its-last-block", cfg: (3, 1, 2), height: 100, setup: vec![COp::Reg(1)],
+                   send: node_ok.0.clone(), get: node_ok.1.clone(),
+                   conc: vec![COp::SubThenAdd { user: 1, loc: 1, blob: enc(1, 0), tsd: 10 }, COp::Conn(vec![])], after: vec![] },
         Scenario { name: "two-users-same-locator", cfg: (3, 50, 2), height: 100, setup: vec![COp::Reg(1), COp::Reg(2)], send: node_ok.0.clone(), get: node_ok.1.clone(),
                    conc: vec![COp::Add { user: 1, loc: 1, blob: enc(1, 0), tsd: 10 }, COp::Add { user: 2, loc: 1, blob: enc(1, 0), tsd: 10 }], after: vec![] },
     ];
@@ -522,6 +566,10 @@ pub fn run(_seed: u64, thorough: bool, rep: &mut Report) {
             } else if !seq.contains_key(&out) {
                 let first_diff = sc.conc.iter().map(|o| o.name()).collect::<Vec<_>>().join("||");
                 rep.fail("C10", &format!("not-serialisable:{}", sc.name), &format!("outcome equals no sequential order of {first_diff}: {out} ; sequential outcomes: {:?} ; {}", seq.keys().collect::<Vec<_>>(), desc()));
+                if sc.name.starts_with("expiring-") {
+                    // C06: in no order of events is this user's request one of a subscribed user
+                    rep.fail("C06", &format!("served_in_no_order_of_events:{}", sc.name), &format!("the answers this user got have no sequential explanation (told expired, then served; or served past the expiry): {out} ; sequential outcomes: {:?} ; {}", seq.keys().collect::<Vec<_>>(), desc()));
+                }
             }
             outcomes.insert(out);
             // children: at every decision point after the prefix, pick another enabled thread
